@@ -221,7 +221,8 @@ fn pou_vars_and_body(rng: &mut Rng, n: &Names, is_function: bool, own: &str) -> 
     let a = rng.pick(&locals).clone();
     let b = rng.pick(&locals).clone();
     body.push_str(trivia(rng, n));
-    match rng.below(3) {
+    match rng.below(4) {
+        3 => body.push_str(&format!("  IF {a} > 3 THEN\n    {b} := 0;\n  END_IF {b} := {b} + 1;{}\n", if n.no_comments { "" } else { " (* same line *)" })),
         0 => body.push_str(&format!("  {a} := {b} + 1;\n")),
         1 => body.push_str(&format!(
             "  IF {a} > 3 THEN\n    {b} := 0;\n  ELSE\n    {b} := {b} + 1;\n  END_IF;\n"
@@ -351,11 +352,13 @@ pub const FAULT_KINDS: &[&str] = &[
     "dup_one_faulty",
     "alias_unknown",
     "global_not_external",
+    "invoke_undeclared_instance",
+    "task_in_other_config",
 ];
 
 /// Fault kinds whose faulty declaration(s) fail on their own (no other declaration needed).
 pub fn is_standalone(kind: &str) -> bool {
-    !matches!(kind, "enum_value_undefined" | "external_not_const" | "const_fb" | "global_not_external")
+    !matches!(kind, "enum_value_undefined" | "external_not_const" | "const_fb" | "global_not_external" | "invoke_undeclared_instance")
 }
 
 pub fn is_name_clash(kind: &str) -> bool {
@@ -524,6 +527,30 @@ pub fn gen_faulty(rng: &mut Rng, size: usize, kind: &str) -> World {
                 format!("PROGRAM Pr{k}\n  VAR\n    cnt : INT;\n  END_VAR\n  cnt := {g} + 1;\nEND_PROGRAM\n")
             };
             push(&mut decls, decl("fault", &format!("Pou{k}"), pou));
+        }
+        "invoke_undeclared_instance" => {
+            // a program declares an instance `inst`; another unit invokes `inst` without declaring it
+            if n.fbs.is_empty() {
+                decls.push(gen_fb(rng, &mut n));
+            }
+            let (f, has_in) = rng.pick(&n.fbs).clone();
+            let k2 = n.fresh();
+            let call = if has_in { "inst(i1 := TRUE);" } else { "inst();" };
+            decls.push(decl("program", &format!("Pr{k2}"), format!("PROGRAM Pr{k2}\n  VAR\n    inst : {f};\n    cnt : INT;\n  END_VAR\n  {call}\nEND_PROGRAM\n")));
+            n.programs.push(format!("Pr{k2}"));
+            let unit = if rng.chance(1, 2) { ("PROGRAM", "END_PROGRAM") } else { ("FUNCTION_BLOCK", "END_FUNCTION_BLOCK") };
+            push(&mut decls, decl("fault", &format!("Un{k}"), format!("{} Un{k}\n  VAR\n    cnt : INT;\n  END_VAR\n  {call}\n{}\n", unit.0, unit.1)));
+        }
+        "task_in_other_config" => {
+            // the task a program refers to exists, but only in *another* configuration
+            let other = gen_config(rng, &mut n, false, true);
+            let other_task = format!("tsk{}", n.counter);
+            decls.push(other);
+            let k2 = n.fresh();
+            push(
+                &mut decls,
+                decl("fault", &format!("Cfg{k2}"), format!("CONFIGURATION Cfg{k2}\n  RESOURCE res{k2} ON PLC\n    TASK own{k2}(INTERVAL := T#50ms, PRIORITY := 2);\n    PROGRAM inst{k2} WITH {other_task} : plc_prg;\n  END_RESOURCE\nEND_CONFIGURATION\n")),
+            );
         }
         "alias_unknown" => push(&mut decls, decl("fault", &format!("Al{k}"), format!("TYPE\n  Al{k} : NoSuchType{k};\nEND_TYPE\n"))),
         other => panic!("unknown fault kind {other}"),
